@@ -30,7 +30,8 @@ def build(ctx):
     ctx.assumptions = ["wire blockLength of the root block and of every group symbolic in [compiled, compiled+%d] independently per level; numInGroup <= %d; data length <= %d; all bytes symbolic" % (E, G, D),
                        "random access (get/set/size) and the one-step cursor protocol under extension are checked here; visiting under extension is exercised by C19 (same extended-geometry walker)"]
     plan = [("vs_msg_le.xml", "17", "checked"), ("vs_msg_be.xml", "20", "checked")] if ctx.quick else \
-        [(x, s, "checked") for s in ("11", "14", "17", "20") for x in ("vs_msg_le.xml", "vs_msg_be.xml")] + [("vs_msg_le.xml", "17", "unchecked")]
+        [("vs_msg_le.xml", "17", "checked"), ("vs_msg_be.xml", "17", "checked"), ("vs_msg_le.xml", "20", "checked"), ("vs_msg_be.xml", "20", "checked"),
+         ("vs_msg_le.xml", "11", "checked"), ("vs_msg_be.xml", "14", "checked"), ("vs_msg_le.xml", "17", "unchecked")]
     for (xml, std, mode) in plan:
         sch, inc = hgen.gen_headers(ctx, xml)
         for msg in sch.messages:
